@@ -55,6 +55,17 @@ theorem tag_frame (t : Tag) (rest : Bytes) (h : t.WF) :
   unfold writeTag
   rw [List.append_assoc, List.append_assoc, readTagHeader_tagHeader _ _ _ _ h.1 h.2, List.append_assoc]
 
+/-- Truncation at ANY byte offset `k` of a muxed file: fewer than 13 bytes give `io.EOF` from
+`ReadHeader`; otherwise the demuxer returns exactly the tags lying wholly inside the first `k` bytes —
+a prefix of the written tags, in order — and then `io.EOF`. Nothing truncated, duplicated or fabricated;
+an incomplete tag is never returned. (The cut shape C08 reuses.) -/
+theorem demux_truncated (hasVideo hasAudio : Bool) (tags : List Tag) (h : ∀ t ∈ tags, t.WF) (k : Nat) :
+    demux ((mux hasVideo hasAudio tags).take k) =
+      (if k < 13 then err .eof
+       else ok ({ version := 1, hasVideo := hasVideo, hasAudio := hasAudio }, wholeTags (k - 13) tags, .err .eof)) ∧
+    wholeTags (k - 13) tags <+: tags :=
+  ⟨demux_cut hasVideo hasAudio tags h k, wholeTags_prefix _ _⟩
+
 /-- No input makes the demuxer panic: not the header reader, not the tag-header reader, not `ReadTag`
 for ANY size argument (fix F20), not the whole-file loop — whose fuel is never exhausted, i.e. it
 terminates after at most `len/15` tags with an error class. -/
@@ -85,5 +96,7 @@ example : mux true true [{ ty := 9, ts := 0x01000002, body := [0xaa] }] =
     [0x46, 0x4c, 0x56, 1, 5, 0, 0, 0, 9, 0, 0, 0, 0,
      9, 0, 0, 1, 0, 0, 2, 1, 0, 0, 0, 0xaa, 0, 0, 0, 12] := by decide
 example : demux (mux false true exTags) = ok (⟨1, false, true⟩, exTags, .err .eof) := by rfl
+example : wholeTags (47 - 13) exTags = exTags.take 2 ∧ (mux false true exTags).length = 63 := by decide
+example : demux ((mux false true exTags).take 47) = ok (⟨1, false, true⟩, exTags.take 2, .err .eof) := by rfl
 
 end Oryx.Props.C09
